@@ -81,7 +81,7 @@ type Cfg struct {
 	NTok      int    `json:"n_tokens_min"`
 	NLines    int    `json:"n_lines_min"`
 	ID        string `json:"id"`
-	// LongStay: the shell stays attached (with traffic) for StayMs (17-22 s, some 35 s / 65 s) after the listener
+	// LongStay: the shell stays attached (with traffic) for StayMs (31-36 s, some 35 s / 65 s) after the listener
 	// closed, after a half-attached attempt that came and went before it
 	LongStay bool `json:"long_stay"`
 	// StayMs: how long a long-staying shell stays attached after the ready notice
@@ -186,9 +186,9 @@ func makeCfg0(rng *rand.Rand, i, rot int) Cfg {
 	}
 	if i%10 == 3 && c.Order != "curl" {
 		c.LongStay = true
-		// longer than any grace period of ten or fifteen seconds; every fourth such case (they are
+		// longer than any grace period of ten, fifteen or thirty seconds; every fourth such case (they are
 		// one in ten, so only the thorough tier gets there) stays beyond half a minute or a minute
-		c.StayMs = 17000 + rng.IntN(5000)
+		c.StayMs = 31000 + rng.IntN(5000)
 		switch i / 10 % 4 {
 		case 2:
 			c.StayMs = 35000
